@@ -3,7 +3,8 @@
   witnesses and non-vacuity examples; helper lemmas are in `FwdVerif/Lemmas/C13.lean`).
 
   A. every exit path reports the request complete exactly once, under its own method, with the
-     status written to the client             (F12 and F40 are repaired: no class is excluded)
+     status written to the client             (F12, F40 and F52 are repaired: no class is excluded;
+     an upgrade exchange whatever its request said about closing the connection)
   B. hence, after any set of completed exchanges in any interleaving, every in-flight series is 0
      and the request counter equals the number of requests, per series and in total
   C. the in-flight gauge is never negative at any instant (on every path of the grammar)
@@ -37,7 +38,7 @@ theorem c13_exactly_once (p : Path) (hv : p.valid = true) (hs : p.shutdown = fal
 example : (Path.refused .get 407 false).good = true ∧ (Path.roundTripError .post 502 true).good = true ∧
     (Path.response .get 200 true).good = true ∧ (Path.connectTunnel .closed).good = true ∧
     (Path.connectTunnel .drainFailure).good = true ∧ Path.mitmHandoff.good = true ∧
-    (Path.upgrade .get .closed).good = true ∧ Path.readError.good = true ∧
+    (Path.upgrade .get false .closed).good = true ∧ (Path.upgrade .get true .closed).good = true ∧ Path.readError.good = true ∧
     (Path.connectRejected 403 false).good = true ∧
     (Path.transportConnectRejected .get 403 false).good = true ∧
     (Path.transportConnectRejected .post 407 true).good = true ∧
@@ -94,6 +95,39 @@ theorem c13_tunnel_reports_once (m : Method) (st : Nat) (e : TunnelEnd) :
 
 example : tunnel .connect 200 .closed = [.wrote .connect 200] ∧ tunnel .get 101 .drainFailure = [.wrote .get 101] ∧
     tunnel .get 101 .writeError = [.wrote .get 101] := by decide
+
+/-- the repaired F52: an upgrade exchange is reported complete exactly once, under the request's method with
+    status 101, WHATEVER the request said about the connection — `cl = true`: it carried the `close` option
+    next to `Upgrade`, or was an HTTP/1.0 request — and whichever way the tunnel ends -/
+theorem c13_upgrade_reported_once (m : Method) (cl : Bool) (e : TunnelEnd) (hm : m ≠ .connect) :
+    (Path.upgrade m cl e).events = [.read m, .wrote m 101] := by
+  have hv : (Path.upgrade m cl e).valid = true := by simp [Path.valid, hm]
+  exact c13_exactly_once _ hv rfl
+
+example : (Path.upgrade .get true .closed).events = [.read .get, .wrote .get 101] ∧
+    (Path.upgrade .get false .closed).events = [.read .get, .wrote .get 101] ∧
+    (Path.upgrade .get true .writeError).events = [.read .get, .wrote .get 101] := by decide
+
+/-- … because the head that opens a tunnel never closes the connection: the request's close flag (and
+    `p.closing()`) plays no part in what `tunnel` does after the head, for a 101 as for a CONNECT 2xx -/
+theorem c13_tunnel_head_never_closes (cl c2 : Bool) (m : Method) (st : Nat) (e : TunnelEnd) :
+    closesAfterHead .tunnelNeverCloses cl c2 = false ∧
+      tunnelAfter (closesAfterHead .tunnelNeverCloses cl c2) m st e = [.wrote m st] := by
+  rw [closesAfterHead_code, tunnelAfter_false]
+  exact ⟨rfl, tunnel_once m st e⟩
+
+/-- the counter-model (the rule of `write` before the repair, commit f5c8c33: only a CONNECT 2xx exempt):
+    an upgrade request that asks to close is read and NEVER reported — one such exchange leaves
+    `http_requests_in_flight{GET}` at 1 for ever and `http_requests_total{101,GET}` at 0 —, while the same
+    exchange without the close option, and every other path, is reported as under the code's rule -/
+theorem c13_upgrade_close_before_repair_witness :
+    (Path.upgrade .get true .closed).eventsBeforeF52 = [.read .get] ∧
+    (run .zero (Path.upgrade .get true .closed).eventsBeforeF52).inflight .get = 1 ∧
+    (run .zero (Path.upgrade .get true .closed).eventsBeforeF52).total 101 .get = 0 ∧
+    (Path.upgrade .get true .closed).eventsBeforeF52 ≠ (Path.upgrade .get true .closed).expected ∧
+    (Path.upgrade .get false .closed).eventsBeforeF52 = (Path.upgrade .get false .closed).expected ∧
+    (Path.connectTunnel .closed).eventsBeforeF52 = (Path.connectTunnel .closed).expected := by
+  decide
 
 /-- a write error never suppresses the report, on either way of writing -/
 theorem c13_write_error_reported (m : Method) (st : Nat) :
@@ -159,7 +193,7 @@ example :
 -- method with status 101; next to them an upgrade tunnel, whose 101 is reported once as before
 example :
     let c := run .zero ([Path.connectRejected 101 false, .transportConnectRejected .get 101 false,
-      .upgrade .get .closed].flatMap Path.events)
+      .upgrade .get false .closed].flatMap Path.events)
     c.inflight .connect = 0 ∧ c.inflight .get = 0 ∧ c.total 101 .connect = 1 ∧ c.total 101 .get = 2 := by
   decide
 
